@@ -44,6 +44,8 @@ def record_fields(term_or_node):
 def run(repo, rep):
     from ..pitfalls import memo_rule as _memo_rule
     _memo_rule(repo, rep, 'C18', 'C18.Z1')
+    from ..pitfalls import log_rule as _log_rule
+    _log_rule(repo, rep, 'C18', 'C18.Z2')
     st = repo.module('statuses')
     dm = repo.module('dimsemessages')
     hier = exc_hierarchy(repo)
